@@ -179,3 +179,26 @@ def coord_regime_spec(scale, sites=False):
             mu.append([i, 0, "T", -1, None, ""])
     return dict(L=bps[-1], nodes=nodes, edges=edges, sites=st_, mutations=mu, individuals=[], populations=[],
                 migrations=[])
+
+
+def alternating_unary_spec(B, extra_sample=True):
+    """Root above two unary nodes u0, u1 whose children alternate at every one of B unit intervals: few edges above,
+    B ancestry segments arriving at the root through each of them."""
+    nodes = [[1, 0.0, -1, -1, ""], [1, 0.0, -1, -1, ""], [1, 0.0, -1, -1, ""],
+             [0, 1.0, -1, -1, ""], [0, 1.0, -1, -1, ""], [0, 2.0, -1, -1, ""]]
+    u = [3, 4]
+    r = 5
+    edges = []
+    for i in range(B):
+        edges.append([float(i), float(i + 1), u[i % 2], 0, ""])
+        edges.append([float(i), float(i + 1), u[(i + 1) % 2], 1, ""])
+    edges.append([0.0, float(B), r, 3, ""])
+    edges.append([0.0, float(B), r, 4, ""])
+    if extra_sample:
+        edges.append([0.0, float(B), r, 2, ""])
+    times = [nd[1] for nd in nodes]
+    edges.sort(key=lambda e: (times[e[2]], e[2], e[3], e[0]))
+    sites = [[float(i) + 0.5, "A", ""] for i in range(0, B, max(1, B // 40))]
+    muts = [[j, u[j % 2], "T", -1, None, ""] for j in range(len(sites))]
+    return dict(L=float(B), nodes=nodes, edges=edges, sites=sites, mutations=muts, individuals=[], populations=[],
+                migrations=[])
